@@ -1,7 +1,6 @@
 //! Functions for signing and verifying JSON and events.
 
 use std::{
-    borrow::Cow,
     collections::{BTreeMap, BTreeSet},
     mem,
 };
@@ -53,6 +52,9 @@ static REFERENCE_HASH_FIELDS_TO_REMOVE: &[&str] = &["signatures", "unsigned"];
 /// Returns an error if:
 ///
 /// * `object` contains a field called `signatures` that is not a JSON object.
+/// * `signatures` contains an entry for `entity_id` that is not a JSON object.
+///
+/// If an error is returned, `object` is left unchanged.
 ///
 /// # Examples
 ///
@@ -101,38 +103,57 @@ pub fn sign_json<K>(
 where
     K: KeyPair,
 {
-    let (signatures_key, mut signature_map) = match object.remove_entry("signatures") {
-        Some((key, CanonicalJsonValue::Object(signatures))) => (Cow::Owned(key), signatures),
+    // Check the shape of the existing signatures before modifying `object`, so that it is left
+    // untouched if an error is returned.
+    match object.get("signatures") {
+        Some(CanonicalJsonValue::Object(signatures)) => {
+            if signatures.get(entity_id).is_some_and(|set| !set.is_object()) {
+                return Err(JsonError::not_multiples_of_type("signatures", JsonType::Object));
+            }
+        }
         Some(_) => return Err(JsonError::not_of_type("signatures", JsonType::Object)),
-        None => (Cow::Borrowed("signatures"), BTreeMap::new()),
-    };
+        None => {}
+    }
 
+    let maybe_signatures_entry = object.remove_entry("signatures");
     let maybe_unsigned_entry = object.remove_entry("unsigned");
 
     // Get the canonical JSON string.
-    let json = to_json_string(object).map_err(JsonError::Serde)?;
+    let json_result = to_json_string(object);
+
+    // Put `unsigned` back in.
+    if let Some((k, v)) = maybe_unsigned_entry {
+        object.insert(k, v);
+    }
+
+    let json = match json_result {
+        Ok(json) => json,
+        Err(error) => {
+            if let Some((k, v)) = maybe_signatures_entry {
+                object.insert(k, v);
+            }
+            return Err(JsonError::Serde(error).into());
+        }
+    };
 
     // Sign the canonical JSON string.
     let signature = key_pair.sign(json.as_bytes());
 
-    // Insert the new signature in the map we pulled out (or created) previously.
-    let signature_set = signature_map
-        .entry(entity_id.to_owned())
-        .or_insert_with(|| CanonicalJsonValue::Object(BTreeMap::new()));
-
-    let signature_set = match signature_set {
-        CanonicalJsonValue::Object(obj) => obj,
-        _ => return Err(JsonError::not_multiples_of_type("signatures", JsonType::Object)),
+    let (signatures_key, mut signature_map) = match maybe_signatures_entry {
+        Some((key, CanonicalJsonValue::Object(signatures))) => (key, signatures),
+        _ => ("signatures".to_owned(), BTreeMap::new()),
     };
 
-    signature_set.insert(signature.id(), CanonicalJsonValue::String(signature.base64()));
-
-    // Put `signatures` and `unsigned` back in.
-    object.insert(signatures_key.into(), CanonicalJsonValue::Object(signature_map));
-
-    if let Some((k, v)) = maybe_unsigned_entry {
-        object.insert(k, v);
+    // Insert the new signature in the map we pulled out (or created) previously.
+    if let CanonicalJsonValue::Object(signature_set) = signature_map
+        .entry(entity_id.to_owned())
+        .or_insert_with(|| CanonicalJsonValue::Object(BTreeMap::new()))
+    {
+        signature_set.insert(signature.id(), CanonicalJsonValue::String(signature.base64()));
     }
+
+    // Put `signatures` back in.
+    object.insert(signatures_key, CanonicalJsonValue::Object(signature_map));
 
     Ok(())
 }
